@@ -36,5 +36,22 @@ s = open("DESIGN.md").read()
 if "MATRIX_TABLE_PLACEHOLDER" in s:
     s = s.replace("MATRIX_TABLE_PLACEHOLDER", "<!-- MATRIX:BEGIN -->\n<!-- MATRIX:END -->")
 s = re.sub(r"<!-- MATRIX:BEGIN -->.*<!-- MATRIX:END -->", lambda _: "<!-- MATRIX:BEGIN -->\n" + table + "\n<!-- MATRIX:END -->", s, flags=re.S)
+# benign (false-alarm) table
+if os.path.exists("selftest/benign.json"):
+    bj = json.load(open("selftest/benign.json"))
+    brow = []
+    for name in sorted(bj):
+        e = bj[name]
+        summ = ""
+        sp = f"selftest/benign/{name}/summary.txt"
+        if os.path.exists(sp):
+            summ = re.sub(r"\s+", " ", open(sp).read())[:170].replace("|", "/")
+        res = "; ".join(f"{p}: rc={c['rc']}" + (f" VIOLATION {','.join(c['clauses'])}" if c["violation_lines"] else "") + (f" ({c['spec_drift_lines']} drift lines)" if c["spec_drift_lines"] else "")
+                        for p, c in sorted(e["checks"].items()))
+        brow.append(f"| {name} | {', '.join(e['files'])} | {summ} | {e.get('suite', '')[:30]} | {res} |")
+    btable = "| change | files | summary (agent's words, truncated) | suite | checks run (quick tier, scratch worktree) |\n|---|---|---|---|---|\n" + "\n".join(brow)
+    if "BENIGN_TABLE_PLACEHOLDER" in s:
+        s = s.replace("BENIGN_TABLE_PLACEHOLDER", "<!-- BENIGN:BEGIN -->\n<!-- BENIGN:END -->")
+    s = re.sub(r"<!-- BENIGN:BEGIN -->.*<!-- BENIGN:END -->", lambda _: "<!-- BENIGN:BEGIN -->\n" + btable + "\n<!-- BENIGN:END -->", s, flags=re.S)
 open("DESIGN.md", "w").write(s)
 print(len(rows), "seeded,", len(rev), "reverts")
